@@ -810,9 +810,91 @@ async fn attributes(a: &ShardArgs, idx: u64) {
         let var = *r.pick(&[1u8, 2, 100, 200, 253]);
         defs.entry((set, var)).or_insert((AV::random(&mut r), r.bool()));
     }
-    // two well-known members of the default set
-    defs.insert((0, 252), (AV::Str("ACME".into()), false));
-    defs.insert((0, 246), (AV::Str("id-1".into()), true));
+    // members of the default set: (variation, kind s|u|b|f|t|o, name of the attribute in IEEE 1815 table order)
+    const DEFAULT_SET: [(u8, char, &str); 57] = [
+        (196, 's', "ConfigId"),
+        (197, 's', "ConfigVersion"),
+        (198, 't', "ConfigBuildDate"),
+        (199, 't', "ConfigLastChangeDate"),
+        (200, 'o', "ConfigDigest"),
+        (201, 's', "ConfigDigestAlgorithm"),
+        (202, 's', "MasterResourceId"),
+        (203, 'f', "DeviceLocationAltitude"),
+        (204, 'f', "DeviceLocationLongitude"),
+        (205, 'f', "DeviceLocationLatitude"),
+        (206, 's', "UserAssignedSecondaryOperatorName"),
+        (207, 's', "UserAssignedPrimaryOperatorName"),
+        (208, 's', "UserAssignedSystemName"),
+        (209, 'u', "SecureAuthVersion"),
+        (210, 'u', "NumSecurityStatsPerAssoc"),
+        (211, 's', "UserSpecificAttributes"),
+        (212, 'u', "NumMasterDefinedDataSetProto"),
+        (213, 'u', "NumOutstationDefinedDataSetProto"),
+        (214, 'u', "NumMasterDefinedDataSets"),
+        (215, 'u', "NumOutstationDefinedDataSets"),
+        (216, 'u', "MaxBinaryOutputPerRequest"),
+        (217, 'u', "LocalTimingAccuracy"),
+        (218, 'u', "DurationOfTimeAccuracy"),
+        (219, 'b', "SupportsAnalogOutputEvents"),
+        (220, 'u', "MaxAnalogOutputIndex"),
+        (221, 'u', "NumAnalogOutputs"),
+        (222, 'b', "SupportsBinaryOutputEvents"),
+        (223, 'u', "MaxBinaryOutputIndex"),
+        (224, 'u', "NumBinaryOutputs"),
+        (225, 'b', "SupportsFrozenCounterEvents"),
+        (226, 'b', "SupportsFrozenCounters"),
+        (227, 'b', "SupportsCounterEvents"),
+        (228, 'u', "MaxCounterIndex"),
+        (229, 'u', "NumCounter"),
+        (230, 'b', "SupportsFrozenAnalogInputs"),
+        (231, 'b', "SupportsAnalogInputEvents"),
+        (232, 'u', "MaxAnalogInputIndex"),
+        (233, 'u', "NumAnalogInput"),
+        (234, 'b', "SupportsDoubleBitBinaryInputEvents"),
+        (235, 'u', "MaxDoubleBitBinaryInputIndex"),
+        (236, 'u', "NumDoubleBitBinaryInput"),
+        (237, 'b', "SupportsBinaryInputEvents"),
+        (238, 'u', "MaxBinaryInputIndex"),
+        (239, 'u', "NumBinaryInput"),
+        (240, 'u', "MaxTxFragmentSize"),
+        (241, 'u', "MaxRxFragmentSize"),
+        (242, 's', "DeviceManufacturerSoftwareVersion"),
+        (243, 's', "DeviceManufacturerHardwareVersion"),
+        (244, 's', "UserAssignedOwnerName"),
+        (245, 's', "UserAssignedLocation"),
+        (246, 's', "UserAssignedId"),
+        (247, 's', "UserAssignedDeviceName"),
+        (248, 's', "DeviceSerialNumber"),
+        (249, 's', "DeviceSubsetAndConformance"),
+        (250, 's', "ProductNameAndModel"),
+        (252, 's', "DeviceManufacturersName"),
+        (1, 's', ""),
+    ];
+    let mut names: std::collections::BTreeMap<u8, &str> = Default::default();
+    for _ in 0..r.range(2, 9) {
+        let (var, kind, name) = *r.pick(&DEFAULT_SET[..56]);
+        let v = match kind {
+            's' => AV::Str((0..r.range(0, 12)).map(|_| (b'a' + r.below(26) as u8) as char).collect()),
+            'u' => AV::UInt(*r.pick(&[0u32, 1, 255, 256, 65535, 65536, u32::MAX])),
+            'b' => AV::Int(r.below(2) as i32),
+            'f' => {
+                if r.bool() {
+                    AV::F32(*r.pick(&[0.0f32, -12.5, 8848.0]))
+                } else {
+                    AV::F64(*r.pick(&[0.0f64, -122.25, 1e-9]))
+                }
+            }
+            't' => AV::Time(*r.pick(&[0u64, 1_600_000_000_000, 0x0000_FFFF_FFFF_FFFF])),
+            _ => AV::Octets({
+                let n = *r.pick(&[1usize, 16, 32]);
+                r.bytes(n)
+            }),
+        };
+        if !defs.contains_key(&(0, var)) {
+            defs.insert((0, var), (v, false));
+            names.insert(var, name);
+        }
+    }
     let d2 = defs.clone();
     let mut def_errors: Vec<String> = vec![];
     let mut sim = OutSim::start_with(oc.clone(), |db| {
@@ -928,7 +1010,19 @@ async fn attributes(a: &ShardArgs, idx: u64) {
                     }
                 }
                 let attrs: Vec<String> = rec.take().into_iter().filter_map(|i| if let Item::Attr(s) = i { Some(s) } else { None }).collect();
-                if attrs.len() != 1 || !attrs[0].contains(&want.debug_needle()) {
+                // members of the default set reach the handler under their own name (booleans as true / false)
+                let name_ok = set != 0 || names.get(&var).map(|n| attrs.first().map(|a| a.contains(&format!("{n}, ")) || a.contains(&format!("{n})")) || a.contains(&format!("({n},"))).unwrap_or(false)).unwrap_or(true);
+                let is_bool = set == 0 && DEFAULT_SET.iter().any(|d| d.0 == var && d.1 == 'b');
+                let num_ok = |x: String| attrs.first().map(|a| a.contains(&format!("({x})")) || a.contains(&format!(", {x})"))).unwrap_or(false);
+                let value_ok = if let AV::UInt(x) = want {
+                    num_ok(x.to_string())
+                } else if is_bool { attrs.first().map(|a| a.contains(if *want == AV::Int(1) { "true" } else { "false" })).unwrap_or(false) } else { attrs.first().map(|a| a.contains(&want.debug_needle())).unwrap_or(false) };
+                if attrs.len() == 1 && set == 0 && !name_ok {
+                    report(a, "A3", idx, &("attribute_name".into(), format!("v{var}"), format!("default-set attribute {var} ({}) reaches the handler as {attrs:?}", names.get(&var).copied().unwrap_or("?"))), f, &ctx);
+                } else if set == 0 && names.contains_key(&var) {
+                    out::count("A3_default_set_attribute_named_ok", 1);
+                }
+                if attrs.len() != 1 || !value_ok {
                     report(a, "A3", idx, &("attribute_delivery".into(), format!("code{}", want.code()), format!("attribute ({set},{var}) = {want:?} reaches the handler as {attrs:?}")), f, &ctx);
                 } else {
                     out::count("A3_attribute_delivered_ok", 1);
